@@ -162,6 +162,22 @@ def run(chk, prog):
                        % ([v.get('has_error') for v in vals], ' and after reset_errors' if after_reset else ''),
                        ci.loc(eb))
 
+    # ---- (f) pending messages survive a committed look-ahead
+    R_F = 'C13.messages-survive-lookahead'
+    chk.rule(R_F, 'copy_and_start_patching carries current_errors and current_warnings into the look-ahead state, each '
+             'skipped only after a test on that list itself: the copy becomes the live state when the look-ahead is '
+             'committed, so a list that is not carried over is a lost (never delivered) message.')
+    cp = prog.fn('StoryState::copy_and_start_patching')
+    if chk.anchor(R_F, 'StoryState::copy_and_start_patching', cp):
+        from rules.c01 import check_conditional_copies
+        from analysis.fieldcov import fields_written
+        wr, _ = fields_written(prog, [cp], 'StoryState', depth=0, tr=tr)
+        for lst in ('current_errors', 'current_warnings'):
+            chk.decide(R_F, chk.key(R_F, lst, 'copied'), lst in wr, 'the list is copied into the look-ahead state',
+                       'copy_and_start_patching no longer copies %s: messages pending at a newline are lost when the '
+                       'look-ahead is committed' % lst, cp.loc(0))
+        check_conditional_copies(chk, prog, tr, cp, ['current_errors', 'current_warnings'], R_F)
+
     # ---- (d) single producer
     nprod = 0
     for fn in prog.fns.values():
